@@ -387,6 +387,9 @@ def main():
     for smear in (False, True):
         for dsign in (-1, 1):
             jobs.append(('job', (3, 3, False, 'box', smear, 'g1', ck.tier, dsign, 1, 8)))
+    # a single frequency channel (a time series): the band has no extent between first and last channel centre
+    for smear in (False, True):
+        jobs.append(('job', (2, 1, False, 'box', smear, 'g1', ck.tier, 1)))
     if not ck.thorough:
         # a single integration: every quantity with a factor (tchans - 1) vanishes
         for kind in ('box', 'gaussian'):
